@@ -788,9 +788,12 @@ func (r *Runner) loadFacts(root *types.Package, dep *packageAction, objFacts map
 func genericHandle(a action, root action, queue chan action, sem *tsync.Semaphore, exec func(a action) error) {
 	if a == root {
 		close(queue)
+		verifPoint("done", root, a, nil, false)
 		if sem != nil {
+			verifPoint("rel", root, a, nil, true)
 			sem.Release()
 		}
+		verifPoint("end", root, a, nil, false)
 		return
 	}
 	if !a.IsFailed() {
@@ -816,15 +819,20 @@ func genericHandle(a action, root action, queue chan action, sem *tsync.Semaphor
 			a.AddError(err)
 		}
 	}
+	verifPoint("done", root, a, nil, false)
 	if sem != nil {
+		verifPoint("rel", root, a, nil, true)
 		sem.Release()
 	}
 
 	for _, t := range a.Triggers() {
+		verifPoint("dec", root, a, t, false)
 		if t.DecrementPending() {
 			queue <- t
+			verifPoint("sent", root, a, t, cap(queue) == 0)
 		}
 	}
+	verifPoint("end", root, a, nil, false)
 }
 
 type analyzerRunner struct {
@@ -1052,13 +1060,17 @@ func (r *subrunner) runAnalyzers(pkgAct *packageAction, pkg *loader.Package) (an
 	if len(all) == 0 {
 		close(queue)
 	}
+	verifPoint("inst", root, pkgAct, nil, false)
 	for item := range queue {
+		verifPoint("recv", root, item, nil, false)
 		b := r.semaphore.AcquireMaybe()
 		if b {
+			verifPoint("start", root, item, nil, true)
 			go genericHandle(item, root, queue, &r.semaphore, ar.do)
 		} else {
 			// the semaphore is exhausted; run the analysis under the
 			// token we've acquired for analyzing the package.
+			verifPoint("start", root, item, nil, false)
 			genericHandle(item, root, queue, nil, ar.do)
 		}
 	}
@@ -1219,7 +1231,9 @@ func (r *Runner) Run(cfg *packages.Config, analyzers []*analysis.Analyzer, patte
 
 	sr := newSubrunner(r, analyzers)
 	for item := range queue {
+		verifPoint("recv", root, item, nil, false)
 		r.semaphore.Acquire()
+		verifPoint("start", root, item, nil, true)
 		go genericHandle(item, root, queue, &r.semaphore, func(act action) error {
 			return sr.do(act)
 		})
